@@ -43,7 +43,7 @@ fn ek(e: &str) -> String {
 
 pub fn run(a: &Args) -> ShardOut {
     let mut total = ShardOut::default();
-    let (histories, epochs) = if a.thorough { (24, 6) } else { (4, 4) };
+    let (histories, epochs) = if a.thorough { (60, 6) } else { (10, 4) };
     let mut seal_log: Vec<Value> = vec![];
     for h in 0..histories {
         if let Some(only) = super::only_history() {
